@@ -44,8 +44,9 @@ func init() {
 			"(K3) Ref/Version/Type and the conversions composed with K2 are the identity on every lane; the kind lookups (methods of Type returning (id, error)) map the text of each kind the packed type can hold to the K2 id of that kind with a nil error and every other text (the other kinds, any other string, every string constant they compare with) to a non-nil error; the Counts methods count an id of each kind under that kind; functions that branch on the decoded kind of an Object do not panic for any kind. " +
 			"(K4) kind lanes lie above ref lanes above version lanes, bit 63 is 0, node < way < relation, so integer order is (kind, ref, version) order; the less function of every provided sort, evaluated for two abstract elements under the three possible orders of their keys and both argument orders, is exactly key(i) < key(j) on the packed id (the ElementID where the element has one), Swap exchanges, Len counts, and every implementation of the key accessor is a K2 constructor; each provided Sort method as a whole, interpreted on constant witness lists with an inversion in the version, reference or kind field at the start, middle or end, hands every out-of-order list to package sort (or orders it itself) and does not panic on the empty list, so no fast path, length shortcut or pre-check on a coarser key (FeatureID instead of ElementID, Ref only) takes an unsorted list for sorted (sorted@). " +
 			"(K5) String() and the parsers are evaluated on abstract ids and abstract texts: String prints kind/ref[:version|:marker] with the marker exactly for version 0; Parse(String(id)) = (id, nil) for every form; kind/ref without version gives version 0; texts with 1..N `/`- or `:`-separated parts are accepted exactly for 2 resp. 1 or 2 parts (N exceeds every constant a part count is compared with); a reference or version that is not a number, an empty kind, any text that is not a kind of the parser's id type (including changeset/note/user/bounds for element and feature ids) and every string constant the parser compares a text with give a provably non-nil error and no panic. " +
+			"(K7) every typed conversion of a packed id (ElementID/FeatureID .NodeID/.WayID/.RelationID, found by signature), evaluated on the K2 id of each of the seven kinds, returns the reference for its own kind and panics on every path for the other six, so its guard is true exactly for that kind whatever its spelling (a single-bit test lets relation ids through a node or way guard). " +
 			"(K6) every strconv parse reached with the decimal text of the reference / version uses base 10 and a bit size covering 40 / 16 bits (plus sign). " +
-			"NOT decided: acceptance of odd but shape-conforming text (`+1`, leading zeros, negative or out-of-range refs/versions, which wrap into the fields; a version after a kind that carries none), malformed texts outside the enumerated classes, the decimal round trip of fmt %d / strconv (trusted transfer functions), inputs outside ref<2^40, version<2^16, and whether X.NodeID()/WayID() panic for ids of another kind (observed: `id&nodeMask != nodeMask` also lets relation ids through; outside the property statement). sorted@ is a finite set of witness lists (a report is a real counterexample; a fast path that misjudges only lists outside the witnesses is not found). Code outside the interpreted forms (function literals that assign to captured variables, goroutines, maps or tables that are written after initialisation, labelled jumps, byte-scanning loops over a text of unknown length, fmt.Sscanf, defer, stores through pointers, builders whose address escapes) is reported as undecided, never silently accepted.",
+			"NOT decided: acceptance of odd but shape-conforming text (`+1`, leading zeros, negative or out-of-range refs/versions, which wrap into the fields; a version after a kind that carries none), malformed texts outside the enumerated classes, the decimal round trip of fmt %d / strconv (trusted transfer functions), inputs outside ref<2^40, version<2^16. sorted@ is a finite set of witness lists (a report is a real counterexample; a fast path that misjudges only lists outside the witnesses is not found). Code outside the interpreted forms (function literals that assign to captured variables, goroutines, maps or tables that are written after initialisation, labelled jumps, byte-scanning loops over a text of unknown length, fmt.Sscanf, defer, stores through pointers, builders whose address escapes) is reported as undecided, never silently accepted.",
 		Assumptions: []string{
 			"go/types constant values and types.Sizes of the loaded build configuration (int is 64 bits by default, 32 bits under GOARCH=386; versions < 2^16 fit either way and every conversion through int is evaluated with the configured width)",
 			"input domain of the property: ref in [0,2^40), version in [0,2^16) (higher input bits are constant 0)",
@@ -67,9 +68,10 @@ func init() {
 			{ID: "K4", Floor: 22, Doc: "lane layout makes integer order (kind, ref, version) order; the provided sorts use strict ascending < on the packed ids (evaluated less/Swap/Len) and hand every out-of-order witness list to that sort (no wrong fast path)", Run: c10K4},
 			{ID: "K5", Floor: 61, Doc: "Parse(String(id)) = id for every form; exactly the kind/ref[:version] arities are accepted; non-numbers, unknown and foreign kinds give a non-nil error, no panic", Run: c10K5},
 			{ID: "K6", Floor: 5, Doc: "the decimal reference / version text is parsed base 10 with a width covering the whole range (strconv calls found by the text that reaches them)", Run: c10K6},
+			{ID: "K7", Floor: 6, Doc: "every typed conversion X.NodeID()/WayID()/RelationID() panics for ids of each of the other six kinds (guard evaluated on the seven kind masks, whatever its spelling)", Run: c10K7},
 		},
-		Mutants: c10AllVariants(c10Mutants, c10MutantsRound2, c10MutantsSort, c10MutantsRepr, c10MutantsIndex, c10MutantsText),
-		Benign:  c10AllVariants(c10Benign, c10BenignSort, c10BenignRepr, c10BenignIndex, c10BenignText),
+		Mutants: c10AllVariants(c10Mutants, c10MutantsRound2, c10MutantsSort, c10MutantsRepr, c10MutantsIndex, c10MutantsText, c10MutantsGuard),
+		Benign:  c10AllVariants(c10Benign, c10BenignSort, c10BenignRepr, c10BenignIndex, c10BenignText, c10BenignGuard),
 	})
 }
 
